@@ -315,7 +315,10 @@ class Case(object):
 
     def init_event(self, **kw):
         e = {'e': 'init', 'tr': self.transport, 'disp': 'default', 'log': 'none' if self.logattr == 'none' else 'open',
-             'lsend': self.logattr != 'logfile_read'}
+             'lsend': self.logattr != 'logfile_read',
+             # the process-global circumstances of the case (not judged by the trace specification; keeps the
+             # traces of the helper-process worlds apart from equal-looking ones of the plain world)
+             'world': 'sigchld-ignored' if AUTOREAP else 'plain' if self.low is None else 'descriptor-%d' % self.low}
         e.update(kw)
         return e
 
